@@ -278,6 +278,11 @@ class CloseSocket(Contract):
             out.append(('socket-ops-only-under-the-write-lock', BoolVal(all(e[2] for e in ops)), ('C11',)))
             out.append(('close-attempted-if-there-was-a-socket',
                         Implies(Not(sn), BoolVal(any(e[0] in ('shutdown', 'close') for e in log)))))
+            # C09 / C13 "and the socket is closed": unless a socket operation itself failed, close() is CALLED - whatever
+            # another thread is doing with the write lock at that moment (the loop waits for it; it does not give up)
+            raised = any(t.startswith('ext:') and '=raise' in t for t in st.trace)
+            out.append(('socket-close()-called-unless-a-socket-operation-failed',
+                        Implies(Not(sn), BoolVal(raised or any(e[0] == 'close' for e in log))), ('C09', 'C13', 'C08')))
             g = st.ghost[W.lock.key]
             out.append(('lock-released', BoolVal(g['held'] == old.ghost[W.lock.key]['held'])))
         return out
